@@ -309,7 +309,10 @@ pub fn format_filesize(size: u64, modifier: &str) -> String {
     if let Some(cap) = FILE_SIZE_FORMAT_REGEX.captures(&modifier) {
         zeroes = cap
             .name("zeroes")
-            .map_or(-1, |m| m.as_str().parse::<i32>().unwrap());
+            .map_or(-1, |m| match m.as_str().parse::<u8>() {
+                Ok(zeroes) => zeroes as i32,
+                _ => error_exit("Incorrect file size precision", m.as_str()),
+            });
         space = cap.name("space").map_or(false, |m| m.as_str() == " ");
         modifier = cap
             .name("units")
